@@ -63,20 +63,20 @@ def main():
     elif args.axis == 'time':
         axis = 0
 
-    if args.w is None:
-        if args.ignore:
-            fcst = np.nancumsum(fcst, axis=axis)
-            obs = np.nancumsum(obs, axis=axis)
-        else:
-            fcst = np.cumsum(fcst, axis=axis)
-            obs = np.cumsum(obs, axis=axis)
+    def accumulate(array):
+        # A file may lack observations (or forecasts): only accumulate what is there
+        if array is None:
+            return None
+        if args.w is None:
+            if args.ignore:
+                return np.nancumsum(array, axis=axis)
+            return np.cumsum(array, axis=axis)
+        elif args.w > 1:
+            return convolve(array, args.w, args.ignore, args.axis)
+        return array
 
-    elif args.w > 1:
-        # if args.w % 2 == 0:
-        #     verif.util.error("Window length has to be an odd number")
-
-        fcst = convolve(fcst, args.w, args.ignore, args.axis)
-        obs = convolve(obs, args.w, args.ignore, args.axis)
+    fcst = accumulate(fcst)
+    obs = accumulate(obs)
 
     file = netCDF4.Dataset(args.ofile, 'w', format="NETCDF4")
     file.createDimension("leadtime", len(ifile.leadtimes))
@@ -88,14 +88,18 @@ def main():
     vLat = file.createVariable("lat", "f4", ("location",))
     vLon = file.createVariable("lon", "f4", ("location",))
     vElev = file.createVariable("altitude", "f4", ("location",))
-    vfcst = file.createVariable("fcst", "f4", ("time", "leadtime", "location"))
-    vobs =  file.createVariable("obs", "f4", ("time", "leadtime", "location"))
+    if fcst is not None:
+        vfcst = file.createVariable("fcst", "f4", ("time", "leadtime", "location"))
+    if obs is not None:
+        vobs = file.createVariable("obs", "f4", ("time", "leadtime", "location"))
     file.long_name = ifile.variable.name
     file.units = unit = ifile.variable.units.replace("$", "")
     file.Convensions = "verif_1.0.0"
 
-    vobs[:] = obs
-    vfcst[:] = fcst
+    if obs is not None:
+        vobs[:] = obs
+    if fcst is not None:
+        vfcst[:] = fcst
     vTime[:] = times
     vOffset[:] = leadtimes
     vLocation[:] = locationids
